@@ -1,7 +1,11 @@
 """C20 translator: the storage-selection rules of ValueStore, read from the headers.
 
   potassco/program_opts/detail/value_store.h
-     vtable(const T*)       -> vtable_select(bool2type<sizeof(T) OP sizeof(void*)>(), x)    OP becomes inplace_cmp
+     vtable(const T*)       -> vtable_select(bool2type< PRED >(), x)    PRED = a constant expression over sizeof(T), sizeof(void*) and
+                               integer literals (comparison / && || ! / + * / % / parentheses) becomes  in_place (size word : Z) : bool,
+                               e.g. `sizeof(T)<=sizeof(void*)` -> `(size <=? word)`; coq/C20/Fits.v proves  in_place s 8 = true -> s <= 8  for ALL s > 0
+                               (an object stored in the holder's word fits into it) - a predicate that admits a larger size breaks that proof.
+                               An expression outside this grammar (or one using `-`: unsigned wrap-around) is a problem.
      base_vtable(const T*)  -> vtable_select(bool2type<0>(), x)                               becomes base_inplace
      vtable_select(bool2type<0>) returns &VTable<T>::vtable_s, <1> returns &OptVTable<T>::vtable_s
      VTable<T>::vtable_s[0] = 0, OptVTable<T>::vtable_s[0] = 0x1   (slot 0 = call_extract tag)
@@ -11,6 +15,12 @@
      enum { call_extract = 0, vcall_clone = 1, vcall_destroy = 2, vcall_typeid = 3 }
   potassco/program_opts/detail/refcountable.h
      RefCountable() : refCount_(1)
+     <type> refCount_;                                  declared type of the counter -> refcount_min / refcount_max / refcount_overflow_undefined
+     <type> addRef() { return ++refCount_; }            bodies are anchors; the return types of release() / refCount() / count() give
+     <type> release() { return --refCount_; }           refcount_rel_* (the value `release() == 0` is tested on) and refcount_obs_* (what
+     <type> refCount() const { return refCount_; }      refCount() / count() report); refcount_bound = the smallest of the maxima = the
+     <type> count() const throw() { return ptr_ ? ptr_->refCount() : 0; }      largest number of simultaneous holders the counter represents exactly
+     an unknown / non-integer type is a problem (broken obligation), a wider type is accepted (the range grows).
 
 Every anchor that is not found is a problem (a broken obligation), never a default.
 """
@@ -28,7 +38,151 @@ def strip(s):
     return s
 
 
-CMP = {'<=': 'Z.leb', '<': 'Z.ltb', '>=': 'Z.geb', '>': 'Z.gtb', '==': 'Z.eqb'}
+# integer types of the LP64 target the harness is built for (static_asserts in harness/h_c20.cpp tie sizeof(int)/short/long to this table):
+# name -> (bits, signed).  Arithmetic on types narrower than int is done in int and converted back (modular, no undefined behaviour);
+# ++/-- beyond the range of a signed type of rank >= int is undefined (UBSan: signed-integer-overflow).
+INT_TYPES = {
+    'signed char': (8, True), 'char': (8, True), 'unsigned char': (8, False),
+    'short': (16, True), 'unsigned short': (16, False),
+    'int': (32, True), 'unsigned': (32, False), 'unsigned int': (32, False),
+    'long': (64, True), 'unsigned long': (64, False), 'long long': (64, True), 'unsigned long long': (64, False),
+    'int8_t': (8, True), 'uint8_t': (8, False), 'int16_t': (16, True), 'uint16_t': (16, False),
+    'int32_t': (32, True), 'uint32_t': (32, False), 'int64_t': (64, True), 'uint64_t': (64, False),
+    'size_t': (64, False), 'ptrdiff_t': (64, True), 'ssize_t': (64, True), 'intptr_t': (64, True), 'uintptr_t': (64, False),
+}
+TYPE_RX = r'((?:(?:std\s*::\s*)?\b(?:unsigned|signed|short|long|int|char|u?int(?:8|16|32|64)_t|size_t|ssize_t|ptrdiff_t|u?intptr_t)\b\s*)+)'
+
+
+def int_type(txt):
+    """declared type text -> (canonical name, lo, hi, overflow_undefined) or None"""
+    w = [x for x in re.sub(r'std\s*::\s*', '', txt).split() if x]
+    if not w:
+        return None
+    uns = 'unsigned' in w
+    core = [x for x in w if x not in ('unsigned', 'signed')]
+    if core and core[-1] == 'int' and len(core) > 1:
+        core = core[:-1]                      # short int, long int, long long int
+    name = ' '.join(core) if core else 'int'
+    if name in ('short', 'int', 'long', 'long long', 'char'):
+        key = ('unsigned ' + name) if uns else ('signed char' if (name == 'char' and 'signed' in w) else name)
+    elif len(w) == 1:
+        key = name
+    else:
+        return None
+    if key not in INT_TYPES:
+        return None
+    bits, sg = INT_TYPES[key]
+    lo, hi = (-(1 << (bits - 1)), (1 << (bits - 1)) - 1) if sg else (0, (1 << bits) - 1)
+    return key, lo, hi, (sg and bits >= 32)
+
+
+class PredError(Exception):
+    pass
+
+
+def pred_to_coq(txt):
+    """C++ constant expression over sizeof(T) / sizeof(void*) / integer literals -> (Coq term of type bool over `size` and `word`, normalised text).
+    Types are tracked: arithmetic is Z (all operands are non-negative: size_t), comparisons / logic are bool.  Raises PredError."""
+    tok_rx = re.compile(r'\s*(sizeof\s*\(\s*T\s*\)|sizeof\s*\(\s*(?:const\s+)?void\s*(?:const\s*)?\*\s*\)|0[xX][0-9a-fA-F]+[uUlL]*|\d+[uUlL]*|<=|>=|==|!=|&&|\|\||[-+*/%<>!()])')
+    toks = []
+    pos = 0
+    txt = txt.strip()
+    while pos < len(txt):
+        m = tok_rx.match(txt, pos)
+        if not m:
+            raise PredError('unexpected text %r' % txt[pos:pos + 20])
+        t = re.sub(r'\s+', '', m.group(1))
+        toks.append(t)
+        pos = m.end()
+    i = [0]
+
+    def peek():
+        return toks[i[0]] if i[0] < len(toks) else None
+
+    def eat(t=None):
+        x = peek()
+        if x is None or (t is not None and x != t):
+            raise PredError('expected %r, found %r' % (t, x))
+        i[0] += 1
+        return x
+
+    def as_bool(e):
+        return e[0] if e[1] == 'b' else '(negb (%s =? 0))' % e[0]
+
+    def as_int(e):
+        if e[1] != 'z':
+            raise PredError('a truth value is used as a number')
+        return e[0]
+
+    def p_or():
+        e = p_and()
+        while peek() == '||':
+            eat()
+            r = p_and()
+            e = ('(%s || %s)' % (as_bool(e), as_bool(r)), 'b')
+        return e
+
+    def p_and():
+        e = p_cmp()
+        while peek() == '&&':
+            eat()
+            r = p_cmp()
+            e = ('(%s && %s)' % (as_bool(e), as_bool(r)), 'b')
+        return e
+
+    def p_cmp():
+        e = p_sum()
+        if peek() in ('<=', '<', '>=', '>', '==', '!='):
+            o = eat()
+            r = p_sum()
+            a, b = as_int(e), as_int(r)
+            e = ({'<=': '(%s <=? %s)', '<': '(%s <? %s)', '>=': '(%s >=? %s)', '>': '(%s >? %s)', '==': '(%s =? %s)', '!=': '(negb (%s =? %s))'}[o] % (a, b), 'b')
+            if peek() in ('<=', '<', '>=', '>', '==', '!='):
+                raise PredError('chained comparison')
+        return e
+
+    def p_sum():
+        e = p_term()
+        while peek() in ('+', '-'):
+            o = eat()
+            if o == '-':
+                raise PredError("'-' on size_t operands (wraps around) is not translated")
+            r = p_term()
+            e = ('(%s + %s)' % (as_int(e), as_int(r)), 'z')
+        return e
+
+    def p_term():
+        e = p_un()
+        while peek() in ('*', '/', '%'):
+            o = eat()
+            r = p_un()
+            e = ('(%s %s %s)' % (as_int(e), {'*': '*', '/': '/', '%': 'mod'}[o], as_int(r)), 'z')
+        return e
+
+    def p_un():
+        if peek() == '!':
+            eat()
+            return ('(negb %s)' % as_bool(p_un()), 'b')
+        return p_atom()
+
+    def p_atom():
+        t = eat()
+        if t == '(':
+            e = p_or()
+            eat(')')
+            return e
+        if t == 'sizeof(T)':
+            return ('size', 'z')
+        if t.startswith('sizeof('):
+            return ('word', 'z')
+        if re.match(r'^(0[xX][0-9a-fA-F]+|\d+)[uUlL]*$', t):
+            return ('%d' % int(re.sub(r'[uUlL]+$', '', t), 0), 'z')
+        raise PredError('unexpected token %r' % t)
+
+    e = p_or()
+    if peek() is not None:
+        raise PredError('trailing token %r' % peek())
+    return as_bool(e), ' '.join(toks)
 
 
 def generate(repo):
@@ -43,16 +197,21 @@ def generate(repo):
     except OSError as e:
         return None, {}, [str(e)]
 
-    # in-place rule
-    m = re.search(r'inline\s+vptr_type\s+vtable\s*\(\s*const\s+T\s*\*\s*x\s*\)\s*\{\s*return\s+vtable_select\s*\(\s*bool2type\s*<\s*'
-                  r'sizeof\s*\(\s*T\s*\)\s*(<=|<|>=|>|==)\s*sizeof\s*\(\s*void\s*\*\s*\)\s*>\s*\(\s*\)\s*,\s*x\s*\)\s*;\s*\}', d)
+    # in-place rule: the whole predicate, as a function of (sizeof(T), sizeof(void*))
+    m = re.search(r'inline\s+vptr_type\s+vtable\s*\(\s*const\s+T\s*\*\s*x\s*\)\s*\{\s*return\s+vtable_select\s*\(\s*bool2type\s*<(.+?)>\s*\(\s*\)\s*,\s*x\s*\)\s*;\s*\}', d, re.S)
+    coq = None
     if m:
-        C['inplace_cmp'] = m.group(1)
-        L.append('Definition inplace_cmp (size_of_T size_of_ptr : Z) : bool := %s size_of_T size_of_ptr. (* vtable(): sizeof T %s sizeof void-pointer *)'
-                 % (CMP[m.group(1)], m.group(1)))
+        try:
+            coq, norm_txt = pred_to_coq(m.group(1))
+            C['in_place'] = norm_txt
+        except PredError as e:
+            probs.append('detail::vtable(): in-place predicate %r is not a size expression the translator knows (%s)' % (' '.join(m.group(1).split()), e))
     else:
-        probs.append('anchor not found: detail::vtable() -> vtable_select(bool2type<sizeof(T) OP sizeof(void*)>(), x)')
-        L.append('Definition inplace_cmp (size_of_T size_of_ptr : Z) : bool := Z.leb size_of_T size_of_ptr. (* ANCHOR MISSING *)')
+        probs.append('anchor not found: detail::vtable() -> vtable_select(bool2type< PREDICATE over sizeof(T), sizeof(void*) >(), x)')
+    if coq is not None:
+        L.append('Definition in_place (size word : Z) : bool := %s. (* vtable(): bool2type< %s > *)' % (coq, C['in_place'].replace('*)', '* )')))
+    else:
+        L.append('Definition in_place (size word : Z) : bool := (size <=? word). (* ANCHOR MISSING *)')
     # adopted objects always use the heap vtable
     m = re.search(r'inline\s+vptr_type\s+base_vtable\s*\(\s*const\s+T\s*\*\s*x\s*\)\s*\{\s*return\s+vtable_select\s*\(\s*bool2type\s*<\s*(\w+)\s*>\s*\(\s*\)\s*,\s*x\s*\)\s*;\s*\}', d)
     if m and m.group(1) in ('0', 'false', '1', 'true'):
@@ -116,6 +275,48 @@ def generate(repo):
     else:
         probs.append('anchor not found: RefCountable() : refCount_(1)')
         L.append('Definition rc_init : Z := 1. (* ANCHOR MISSING *)')
+    # the counter's declared type and the types its value is returned through
+    rng = {}
+
+    def typed(what, rx, text, fallback='int'):
+        m = re.search(rx, text)
+        t = int_type(m.group(1)) if m else None
+        if not m:
+            probs.append('anchor not found: %s' % what)
+        elif t is None:
+            probs.append('%s: type %r is not an integer type the translator knows (the model needs the range of the reference counter)' % (what, ' '.join(m.group(1).split())))
+        if t is None:
+            t = int_type(fallback) + ('ANCHOR MISSING',)
+        rng[what] = t
+        return t
+
+    st = typed('RefCountable::refCount_ declaration', TYPE_RX + r'refCount_\s*;', r)
+    typed('RefCountable::addRef', TYPE_RX + r'addRef\s*\(\s*\)\s*\{\s*return\s*\+\+\s*refCount_\s*;\s*\}', r)
+    rl = typed('RefCountable::release', TYPE_RX + r'release\s*\(\s*\)\s*\{\s*return\s*--\s*refCount_\s*;\s*\}', r)
+    rc = typed('RefCountable::refCount', TYPE_RX + r'refCount\s*\(\s*\)\s*const\s*\{\s*return\s+refCount_\s*;\s*\}', r)
+    ct = typed('IntrusiveSharedPtr::count', TYPE_RX + r'count\s*\(\s*\)\s*const\s*throw\s*\(\s*\)\s*\{\s*return\s+ptr_\s*\?\s*ptr_\s*->\s*refCount\s*\(\s*\)\s*:\s*0\s*;\s*\}', r)
+    if not re.search(r'void\s+release\s*\(\s*\)\s*const\s*\{\s*if\s*\(\s*ptr_\s*&&\s*ptr_\s*->\s*release\s*\(\s*\)\s*==\s*0\s*\)\s*\{\s*delete\s+ptr_\s*;\s*\}\s*\}', r):
+        probs.append('anchor not found: IntrusiveSharedPtr::release() { if (ptr_ && ptr_->release() == 0) { delete ptr_; } }')
+    if not re.search(r'void\s+addRef\s*\(\s*\)\s*const\s*\{\s*if\s*\(\s*ptr_\s*\)\s*ptr_\s*->\s*addRef\s*\(\s*\)\s*;\s*\}', r):
+        probs.append('anchor not found: IntrusiveSharedPtr::addRef() { if (ptr_) ptr_->addRef(); }')
+
+    def zlit(v):
+        return '(%d)' % v if v < 0 else '%d' % v
+
+    def emit(prefix, t, what):
+        note = ' ANCHOR MISSING' if len(t) > 4 else ''
+        L.append('Definition %s_min : Z := %s. (* %s: %s%s *)' % (prefix, zlit(t[1]), what, t[0], note))
+        L.append('Definition %s_max : Z := %s.' % (prefix, zlit(t[2])))
+
+    emit('refcount', st, 'declared type of RefCountable::refCount_')
+    L.append('Definition refcount_overflow_undefined : bool := %s. (* ++/-- beyond the range: %s *)'
+             % (('true', 'undefined behaviour (signed, rank >= int)') if st[3] else ('false', 'wraps (computed in int / unsigned and converted back)')))
+    emit('refcount_rel', rl, 'return type of RefCountable::release(), compared with 0 by IntrusiveSharedPtr::release()')
+    emit('refcount_rc', rc, 'return type of RefCountable::refCount()')
+    emit('refcount_cnt', ct, 'return type of IntrusiveSharedPtr::count()')
+    bound = min(st[2], rl[2], rc[2], ct[2])
+    L.append('Definition refcount_bound : Z := %s. (* the smallest of the four maxima *)' % zlit(bound))
+    C['refcount'] = {'type': st[0], 'min': st[1], 'max': st[2], 'overflow_undefined': st[3], 'release': rl[0], 'refCount': rc[0], 'count': ct[0], 'bound': bound}
     return '\n'.join(L) + '\n', C, probs
 
 
